@@ -46,7 +46,7 @@ def make_case(rng: Rng) -> Dict[str, Any]:
     cfg: Dict[str, Any] = {'kind': kind}
     if kind == 'generated':
         prof = W.profile(reexport=0.5, roots=(1, 3), zope=0.1, fields=0.3, dup=0.1, nested=0.3,
-                         cyclic=rng.sub('cyc').chance(0.2), subscript=0.2)
+                         cyclic=rng.sub('cyc').chance(0.2), subscript=0.2, case_twins=0.5)
         world = W.gen_world(rng.sub('world'), prof)
         cfg['files'] = W.world_files(world)
         cfg['roots'] = [m for m in world['modules'] if '.' not in m]
